@@ -863,6 +863,7 @@ def check_c12(exe, tier, seed, verdict):
     # NULL / empty directory arguments
     ok += check_null_dirs(exe, verdict)
     ok += check_blank_dirs(exe, verdict)
+    ok += check_option_object_reuse(exe, verdict)
     ok += check_confdirs(exe, rnd.sample(recs, min(len(recs), 300)), verdict)
     nreq = check_requirements_agree(exe, rnd.sample(recs, min(len(recs), 400 if tier == "quick" else 3000)), verdict)
     ok += nreq
@@ -1220,6 +1221,39 @@ def check_null_dirs(exe, verdict):
         verdict.violation("C12:nulldir:content", {"kind": "script", "script": s, "got": [str(x) for x in m]}, "NULL/empty directory arguments: results differ: %s" % m)
         return 0
     return 1
+
+
+def check_option_object_reuse(exe, verdict):
+    """ONE option object (PARSING_DIRS = the two directories) handed to econf_readConfig / econf_readConfigWithCallback again and
+    again while the tree changes: reads that fail (nothing there yet, a malformed main file, a file the callback refuses) leave
+    the object and its options alone, so the next read with it looks into the same two directories - and agrees with
+    econf_readDirs on the tree as it is then"""
+    ok = 0
+    for n, cb in enumerate(("", "cb")):
+        R = ROOT + "/reuse%d" % n
+        U, E = R + "/dist", R + "/local"
+        rd = "readconfig%s 1 - - %s %s x3d x23" % (cb, hx("cfg"), hx("conf"))
+        s = ["rm %s" % hx(R), "mkdir %s" % hx(U), "mkdir %s" % hx(E), "cbreset", "newopt 1 %s" % hx("PARSING_DIRS=%s:%s" % (U, E)),
+             rd,                                                                                    # nothing there yet
+             "file %s %s" % (hx(U + "/cfg.conf"), hx("[broken\n")), rd,                              # a malformed main file
+             "file %s %s" % (hx(U + "/cfg.conf"), hx("M=vendor\nV=1\n")), "file %s %s" % (hx(E + "/cfg.conf.d/a.conf"), hx("A=etc\n"))]
+        if cb:
+            s += ["cbrejectpath %s" % hx(E + "/cfg.conf.d/a.conf"), rd, "cbreset"]                # a file the callback refuses
+        s += [rd, "dump 1", "free 1", "readdirs 2 %s %s %s %s x3d x23" % (hx(U), hx(E), hx("cfg"), hx("conf")), "dump 2", "free 2"]
+        out = core.run_cases(exe, [("ru", s)], jobs=1)["ru"]
+        if out["crash"]:
+            verdict.violation("C12:reuse:crash", {"kind": "script", "script": s, "crash": out["crash"]}, "one option object used for several reads: crash\n" + out["crash"][:700])
+            continue
+        rcs = [e["rc"] for e in out["ev"] if e["op"].startswith("readconfig")]
+        want = ["ECONF_NOFILE", "ECONF_MISSING_BRACKET"] + (["ECONF_PARSING_CALLBACK_FAILED"] if cb else []) + ["ECONF_SUCCESS"]
+        m = [as_map(listing_of_dump(d) or []) for d in out["ev"] if d["op"] == "dump"]
+        if rcs != want or len(m) != 2 or m[0] != m[1]:
+            verdict.violation("C12:reuse", {"kind": "script", "script": s, "rcs": rcs, "want": want, "got": [str(x) for x in m]},
+                              "one option object (PARSING_DIRS=<dist>:<local>) used for %d reads with econf_readConfig%s while the tree is filled: results %s, expected %s; the last one %s econf_readDirs on the final tree" % (
+                                  len(want), "WithCallback" if cb else "", rcs, want, "agrees with" if len(m) == 2 and m[0] == m[1] else "DIFFERS from"))
+        else:
+            ok += 1
+    return ok
 
 
 def check_blank_dirs(exe, verdict):
